@@ -676,9 +676,8 @@ def rule_vlq(ctx):
               "7-bit groups need shift 7, mask 0x7F and continuation 0x80; constants found %s" % sorted(consts))
 
 
-def rule_writers(ctx):
+def rule_writers(ctx, R="R-C16-W"):
     """write_* build one MidiTrack per (track), repeat the whole content repeat+1 times and write get_midi_data."""
-    R = "R-C16-W"
     repo = ctx.repo
     fmod = repo.mod(MF)
     mtci = repo.mod(MT).cls("MidiTrack")
